@@ -1,6 +1,7 @@
 package main
 
 import (
+	"fmt"
 	"strings"
 
 	"golang.org/x/tools/go/ssa"
@@ -11,13 +12,64 @@ func init() {
 		ID: "C09",
 		Decides: "(R09.1) the current-handler slot is written only by start (initial handler) and exitAndEnter, the latter under the state lock; (R09.2) exitAndEnter is called only from switchState after checkStateSwitchContext said proceed or redirect (not ignore, not error), with the checked or the redirected context; " +
 			"(R09.3) in checkStateSwitchContext every non-ignoring exit with a current handler in STOPPED requires next ∈ {BOOTING, BROKEN} (exactly these constants), every proceed exit except the BROKEN shortcut requires from == current state and a registered next state, and the unchanged context leaves the function only if consensus is allowed, or the current state is HANDOVER, or next ∉ {CONSENSUS, JOINING}; in SYNCING the disallowed request is ignored, otherwise replaced by a syncing context; " +
-			"(R09.4) the reported state is next() of the very context handed to exitAndEnter and is reported only after exitAndEnter succeeded; (R09.5) who may call switchState and who may send on the state channel.",
+			"(R09.4) the reported state is next() of the very context handed to exitAndEnter and is reported only after exitAndEnter succeeded; (R09.5) who may call switchState and who may send on the state channel.; (R09.7) no method of States calls, while holding stateLock, another method that acquires stateLock (RWMutex is not re-entrant: the machine would block before reaching Syncing); (R09.8) switchState reports an ignored request differently from a completed switch (its caller applies after-switch effects) and (R09.9) a request is validated against the state it is applied to (validation and switch in one critical section of stateLock, or re-validation under the switch lock) — both violated today, known findings",
 		NotDecided: "races between SetAllowConsensus and an in-flight switch (the check is evaluated outside the state lock); handler-internal enter/exit behaviour; the handover broker protocol.",
 		Run:        runC09,
 	})
 }
 
 func runC09(c *Ctx) {
+	// R09.8: "a request whose origin is not the current state has no effect": the caller of switchState
+	// must be able to tell an ignored request from a completed switch, otherwise it applies the
+	// after-switch effects (leaving handover, "states stopped") to a request that was dropped.
+	c.Rule("R09.8", "MustPass")
+	if fn := c.Need("isaac/states.(*States).switchState"); fn != nil {
+		var same []string
+		ign := []Gate{GTrue("errors.Is(st.checkStateSwitchContext(*), isaacstates.ErrIgnoreSwitchingState)"),
+			GTrue("errors.Is(st.exitAndEnter(*)#2, isaacstates.ErrIgnoreSwitchingState)")}
+		nIgn := 0
+		for _, r := range Returns(fn) {
+			if r.Block().Comment == "recover" || len(r.Results) != 1 {
+				continue
+			}
+			if allOK(c.MustPass(fn, nil, []ssa.Instruction{r}, ign...)) {
+				nIgn++
+				if c.D(RetVal(r, 0)) == "nil" {
+					same = append(same, c.Pos(r.Pos()))
+				}
+			}
+		}
+		c.Floor(fn, "ignored-request exits of switchState", nIgn, 1)
+		c.Report(fn, "an ignored request is reported to the caller differently from a completed switch", fn.Pos(), len(same) == 0,
+			"ignored requests return plain nil like a completed switch at "+strings.Join(same, ", ")+"; ensureSwitchState then runs checkOutOfHandoverX / answers 'states stopped' for them")
+	}
+	// R09.9: the request is validated against the state it is applied to: validation and switch share one
+	// critical section of stateLock, or the switch re-validates under its own lock
+	c.Rule("R09.9", "LockHeld")
+	if fn := c.Need("isaac/states.(*States).switchState"); fn != nil {
+		chk := c.CallsD(fn, "st.checkStateSwitchContext(*)")
+		sw := c.CallsD(fn, "st.exitAndEnter(*)")
+		one := len(chk) > 0 && len(sw) > 0 && c.heldOK(fn, append(append([]ssa.Instruction{}, chk...), sw...), "&st.stateLock", LR)
+		re := false
+		if ee := c.Need("isaac/states.(*States).exitAndEnter"); ee != nil {
+			calls := c.CallsD(ee, "st.checkStateSwitchContext(*)")
+			re = len(calls) > 0 && c.heldOK(ee, calls, "&st.stateLock", LR)
+			if !re {
+				// or it compares the handler it was given with the current one under the lock
+				for _, in := range c.condsMatching(ee, "*st.cs*") {
+					if c.heldOK(ee, []ssa.Instruction{in}, "&st.stateLock", LR) {
+						re = true
+					}
+				}
+			}
+		}
+		c.Report(fn, "a switch request is validated against the state it is applied to (one critical section, or re-validated under the switch lock)", fn.Pos(), one || re,
+			fmt.Sprintf("validation and switch in one critical section: %v; exitAndEnter re-validates under its lock: %v", one, re))
+	}
+	// R09.7: the state lock is never asked for again by a method that already holds it (the switch loop
+	// takes it exclusively in exitAndEnter: a re-entrant read lock behind that writer blocks the machine for good)
+	c.Rule("R09.7", "LockOrder")
+	c.ReentrantLocks("isaac/states.(*States).", "st", "stateLock", 1)
 	// R09.1 ---------------------------------------------------------------------------------------
 	c.Rule("R09.1", "WhoMayWrite")
 	cs := c.WhoStores("States", "cs")
